@@ -55,7 +55,8 @@ pub const FAMILIES: &[&str] = &[
 
 /// Rejections introduced by fix batch 3 (their seeds come from a separate generator so that every earlier request
 /// of a run keeps its seed): fe5dd8d (an enum value named like a namespace of its scope), c805c03 (swizzles with more
-/// than four components), 92d66eb (Metal: float remainder assignment whose target has side effects)
+/// than four components), 92d66eb + 35faaaa (Metal: float remainder assignment whose target has side effects / whose
+/// right operand writes)
 pub const FAMILIES_FIX3: &[&str] = &["enum_value_namespace", "swizzle_long", "export_msl_fix3"];
 
 const POOL: &[&str] = &[
@@ -1711,21 +1712,25 @@ pub fn diag_program(family: &str, rng: &mut Rng) -> Option<DiagProg> {
         }
         "export_msl_fix3" => {
             // 92d66eb: on Metal `target %= value` over floats becomes `target = fmod(target, value)`; a target with side
-            // effects is an export error (ComplexRemainderAssignment). k offenders in k functions / statements; the HLSL
+            // effects - and since 35faaaa a right operand that writes - is an export error (ComplexRemainderAssignment). k offenders in k functions / statements; the HLSL
             // targets accept the program (the operator is kept)
             let ns = names(rng, k);
             s.push_str("static int s_count = 0;\nint bump()\n{\n    s_count = s_count + 1;\n    return s_count;\n}\nstruct Holder\n{\n    float m[4];\n    float3 v;\n};\n");
             let per_function = rng.chance(1, 2);
             let mut bodies: Vec<String> = Vec::new();
             for n in &ns {
-                let target = match rng.below(5) {
-                    0 => format!("a_{}[i++]", n),
-                    1 => format!("a_{}[--i]", n),
-                    2 => format!("a_{}[bump()]", n),
-                    3 => format!("h_{}.m[i += 1]", n),
-                    _ => format!("h_{}.m[bump() & 3]", n),
+                // 35faaaa: a right operand that writes (call, assignment, increment) is refused as well
+                let (target, value) = match rng.below(8) {
+                    0 => (format!("a_{}[i++]", n), "y".to_string()),
+                    1 => (format!("a_{}[--i]", n), "y".to_string()),
+                    2 => (format!("a_{}[bump()]", n), "y".to_string()),
+                    3 => (format!("h_{}.m[i += 1]", n), "y".to_string()),
+                    4 => (format!("h_{}.m[bump() & 3]", n), "y".to_string()),
+                    5 => (format!("a_{}[1]", n), "(float)bump()".to_string()),
+                    6 => (format!("h_{}.v", n), format!("(h_{}.v = float3(y, y, y))", n)),
+                    _ => (format!("h_{}.m[2]", n), "(float)(i++)".to_string()),
                 };
-                bodies.push(format!("    float a_{}[4];\n    Holder h_{};\n    a_{}[0] = 1.0f;\n    h_{}.m[0] = 1.0f;\n    {} %= y;\n", n, n, n, n, target));
+                bodies.push(format!("    float a_{}[4];\n    Holder h_{};\n    a_{}[0] = 1.0f;\n    h_{}.m[0] = 1.0f;\n    {} %= {};\n", n, n, n, n, target, value));
             }
             shuffle(rng, &mut bodies);
             if per_function {
